@@ -51,12 +51,18 @@ func (c *fctx) outObjs() []types.Object {
 		os = append(os, c.recv)
 	}
 	if c.closure {
+		if c.closureOuts != nil {
+			return c.closureOuts
+		}
 		return os
 	}
 	sig := c.info.Defs[c.fd.Name].Type().(*types.Signature)
+	if r := sig.Recv(); r != nil && c.ptrs[r] {
+		os = append(os, r)
+	}
 	for i := 0; i < sig.Params().Len(); i++ {
 		p := sig.Params().At(i)
-		if c.ptrs[p] {
+		if c.ptrs[p] && p != c.recv {
 			os = append(os, p)
 		}
 	}
@@ -588,6 +594,16 @@ func (c *fctx) setLvalue(lhs ast.Expr, val string, n int) (string, error) {
 		if err != nil {
 			return "", err
 		}
+		if base.t.k == kMap {
+			kx, err := c.expr(x.Index)
+			if err != nil {
+				return "", err
+			}
+			t := c.hoist(fmt.Sprintf("Go.mapSet %s %s %s", base.s, paren(kx.s), paren(val)))
+			pre := c.flush(n)
+			r, err := c.setLvalue(x.X, t, n)
+			return pre + r, err
+		}
 		i, err := c.intExpr(x.Index)
 		if err != nil {
 			return "", err
@@ -818,11 +834,21 @@ func (c *fctx) callStmt(x *ast.CallExpr, n int) (string, string, error) {
 		}
 	}
 	var ptrArgs []string
+	cbState := ""
 	for i, a := range x.Args {
 		pt := sig.Params().At(i).Type()
 		if _, isFn := pt.Underlying().(*types.Signature); isFn {
 			if fl, ok := a.(*ast.FuncLit); ok {
 				cb, ok := f.callbacks[sig.Params().At(i).Name()]
+				if ok && cb.kind == "state" {
+					lam, st, err := c.closureLitState(fl, n+1)
+					if err != nil {
+						return "", "", err
+					}
+					args = append(args, lam)
+					cbState = st
+					continue
+				}
 				if !ok || (cb.kind != "recv0" && cb.kind != "recv1") {
 					return "", "", fmt.Errorf("function literal for a callback of unsupported kind at %s", fset.Position(a.Pos()))
 				}
@@ -868,8 +894,16 @@ func (c *fctx) callStmt(x *ast.CallExpr, n int) (string, string, error) {
 	}
 	args = append(args, ptrArgs...)
 	if f.needsState() {
-		args = append(args, c.names[c.state])
-		outs = append(outs, c.names[c.state])
+		if cbState != "" {
+			args = append(args, cbState)
+			outs = append(outs, cbState)
+		} else {
+			if c.state == nil {
+				return "", "", fmt.Errorf("call of %s needs a callback state", f.goName)
+			}
+			args = append(args, c.names[c.state])
+			outs = append(outs, c.names[c.state])
+		}
 	}
 	if f.rec {
 		if f == c.cfg {
@@ -1206,4 +1240,41 @@ func (c *fctx) autoFn(q string, fn *types.Func) *fnCfg {
 	c.g.fns[q] = f
 	c.g.pending = append(c.g.pending, f)
 	return f
+}
+
+// closureLitState: `func(c *Decoder) { … }` handed to a callback of kind "state" (Dec → σ → Res (Dec × σ)).
+// σ is the tuple of the enclosing function's variables the literal assigns (captured by reference in
+// Go); the literal becomes `fun c s => do let (vars) := s; …; pure (c, vars)`. Returns the lambda and
+// the tuple term (argument and result pattern at the call site).
+func (c *fctx) closureLitState(fl *ast.FuncLit, n int) (string, string, error) {
+	sig := c.info.Types[fl].Type.(*types.Signature)
+	if sig.Params().Len() != 1 || sig.Results().Len() != 0 || !isPtr(sig.Params().At(0).Type()) {
+		return "", "", fmt.Errorf("state callback literal must be func(*T) at %s", fset.Position(fl.Pos()))
+	}
+	pobj := sig.Params().At(0)
+	mods := c.modified(fl.Body.List)
+	var captured []types.Object
+	for _, o := range mods {
+		if o != nil && o != c.state {
+			captured = append(captured, o)
+		}
+	}
+	tuple := c.tupleOf(captured)
+	savedRes, savedLoops, savedClosure, savedPre, savedOuts := c.res, c.loops, c.closure, c.pre, c.closureOuts
+	snapNames := c.snapshot()
+	pname := c.declare(pobj)
+	c.res, c.loops, c.closure, c.pre = nil, nil, true, nil
+	c.closureOuts = append([]types.Object{pobj}, captured...)
+	body, err := c.stmts(fl.Body.List, &cont{kind: "fnend"}, n+1)
+	c.res, c.loops, c.closure, c.pre, c.closureOuts = savedRes, savedLoops, savedClosure, savedPre, savedOuts
+	c.restore(snapNames)
+	if err != nil {
+		return "", "", err
+	}
+	sv := c.fresh("st")
+	bind := ""
+	if len(captured) > 0 {
+		bind = ind(n+1) + "let " + tuple + " := " + sv + "\n"
+	}
+	return "(fun " + pname + " " + sv + " => do\n" + bind + body + ind(n) + ")", tuple, nil
 }
